@@ -20,6 +20,7 @@ import (
 	"path/filepath"
 	"sort"
 	"strings"
+	"sync"
 	"time"
 
 	"github.com/glebziz/fs_db"
@@ -135,6 +136,21 @@ func main() {
 	w := bufio.NewWriter(f)
 	defer w.Flush()
 	enc := json.NewEncoder(w)
+	// watchdog: a call of the real code that does not come back within two minutes ends the trace with a "hang" event
+	go func() {
+		for {
+			time.Sleep(5 * time.Second)
+			hb.Lock()
+			stuck := !hb.at.IsZero() && time.Since(hb.at) > 2*time.Minute
+			n, op := hb.n, hb.op
+			hb.Unlock()
+			if stuck {
+				enc.Encode(event{Op: op, N: n, Res: "hang", Obs: []obs{}, Keys: []keysObs{}})
+				w.Flush()
+				os.Exit(0)
+			}
+		}
+	}()
 
 	enabled := map[string]bool{}
 	for _, o := range strings.Split(*ops, ",") {
@@ -273,6 +289,7 @@ func main() {
 			continue
 		}
 		ev := event{Op: op, N: n, Obs: []obs{}, Keys: []keysObs{}}
+		beat(n, op)
 		var opErr error
 		// every call gets its own context, given up as soon as the call has returned (three steps in four)
 		opCtx, stop := context.WithCancel(bg)
@@ -492,6 +509,19 @@ func contains(s []int, x int) bool {
 		}
 	}
 	return false
+}
+
+var hb struct {
+	sync.Mutex
+	at time.Time
+	n  int
+	op string
+}
+
+func beat(n int, op string) {
+	hb.Lock()
+	hb.at, hb.n, hb.op = time.Now(), n, op
+	hb.Unlock()
 }
 
 func fatal(err error) {
